@@ -308,7 +308,7 @@ fn run(ctx: &mut Ctx) {
 
     // 3. seeded random: 4 calibrated names (fixed or variable qubit, possibly overlapping definitions),
     //    optional measurement calibration, bodies up to 5 items, any name may be invoked (cycles happen)
-    let n_random = if ctx.quick() { 6000 } else { 150_000 };
+    let n_random = if ctx.quick() { 6000 } else { 400_000 };
     let mut rng = ctx.rng(19);
     let names = ["X", "Y", "Z", "W"];
     let plain = ["N", "T", "U", "P", "U1", "V"];
